@@ -3,6 +3,7 @@ import os, sys
 sys.path.insert(0, os.path.dirname(os.path.abspath(__file__)))
 import chain_common as cc
 WHAT = {"HeaderAgreement": "two execution paths / nodes computed different headers, certificate results or states for the same prefix and block",
+        "ExecAgreement": "a node executed a certified block on top of the same prefix (as replica, on commit, or replaying the archive during sync) and arrived at another header or other certificate results",
         "NoPathError": "an execution path failed on a block the other paths accepted"}
 def main(tier):
     return cc.run("C03", tier, set(WHAT), WHAT, ["G_ResetBeforeExec", "G_CacheNotConsulted"])
